@@ -217,3 +217,6 @@ func ExhaustiveSpaces(id, tier string) map[string]int {
 	}
 	return nil
 }
+
+// Tick is called by long sequential checks (C18) to tell the worker's watchdog that they are alive.
+var Tick = func() {}
